@@ -33,6 +33,7 @@ structure SGhost where
 def Pc.inTick : Pc → Option (Nat × Nat × List Trxd.TxMsg × List Trxd.TxMsg)
   | .loop fn j emit drop _ => some (fn, j, emit, drop)
   | .fwd fn j _ _ _ _ emit drop _ => some (fn, j, emit, drop)
+  | .hdl fn j _ _ _ _ _ _ emit drop _ => some (fn, j, emit, drop)
   | _ => none
 
 /-- one action of a schedule seen from transceiver `j0` (`pos` = position of the action) -/
@@ -95,6 +96,8 @@ def PcOk (j0 : Nat) (sg : SGhost) : Pc → Prop
   | .loop fn j emit drop _ => if j = j0 then TickOk fn emit drop sg else sg.pendE = [] ∧ sg.pendD = []
   | .fwd fn j _ _ _ _ emit drop _ =>
     if j = j0 then TickOk fn emit drop sg else sg.pendE = [] ∧ sg.pendD = []
+  | .hdl fn j _ _ _ _ _ _ emit drop _ =>
+    if j = j0 then TickOk fn emit drop sg else sg.pendE = [] ∧ sg.pendD = []
   | _ => sg.pendE = [] ∧ sg.pendD = []
 
 /-- the invariant of the interleaving semantics for transceiver `j0` -/
@@ -104,17 +107,6 @@ structure SInv (j0 pos : Nat) (s : State) (sg : SGhost) : Prop where
   pcOk : PcOk j0 sg s.pc
 
 /-! ### preservation -/
-
-theorem fwdTo_sameQ {w w' : World} {j mfn k : Nat} {msg : Trxd.TxMsg} {txFreq : Option Int} {ds : List Dgram}
-    (h : fwdTo w j msg mfn txFreq k = .ok (some (w', ds))) : SameQ w w' := by
-  unfold fwdTo at h
-  repeat' (first | contradiction | split at h)
-  all_goals first
-    | (simp only [Except.ok.injEq, Option.some.injEq, Prod.mk.injEq, reduceCtorEq] at h; done)
-    | (rename_i hh
-       simp only [Except.ok.injEq, Option.some.injEq, Prod.mk.injEq] at h
-       obtain ⟨rfl, -⟩ := h
-       exact handleDataMsg_sameQ hh)
 
 theorem map_snd_eq_cons {l : List (Nat × Trxd.TxMsg)} {m : Trxd.TxMsg} {ms : List Trxd.TxMsg}
     (h : l.map Prod.snd = m :: ms) : ∃ p rest, l = p :: rest ∧ p.2 = m ∧ rest.map Prod.snd = ms := by
@@ -142,6 +134,10 @@ theorem PcOk.congr {j0 : Nat} {pc : Pc} {sg sg' : SGhost} (h : PcOk j0 sg pc)
     · next e => rw [if_pos e] at h; exact h.congr hE hD hs ht
     · next e => rw [if_neg e] at h; rw [hE, hD]; exact h
   case fwd fn j _ _ _ _ emit drop js =>
+    split
+    · next e => rw [if_pos e] at h; exact h.congr hE hD hs ht
+    · next e => rw [if_neg e] at h; rw [hE, hD]; exact h
+  case hdl fn j _ _ _ _ _ _ emit drop js =>
     split
     · next e => rw [if_pos e] at h; exact h.congr hE hD hs ht
     · next e => rw [if_neg e] at h; rw [hE, hD]; exact h
@@ -206,7 +202,9 @@ theorem sinv_clk {j0 pos : Nat} {s : State} {sg : SGhost} (h : SInv j0 pos s sg)
     cases js with
     | nil =>
       simp only [clockStep]
-      exact ⟨hinv.mono (Nat.le_succ _), hsub, by simpa only [PcOk] using hpc⟩
+      split
+      · exact ⟨hinv.mono (Nat.le_succ _), hsub, trivial⟩
+      · exact ⟨hinv.mono (Nat.le_succ _), hsub, by simpa only [PcOk] using hpc⟩
     | cons j js =>
       simp only [clockStep]
       split
@@ -345,11 +343,16 @@ theorem sinv_clk {j0 pos : Nat} {s : State} {sg : SGhost} (h : SInv j0 pos s sg)
       split
       · exact ⟨hinv.mono (Nat.le_succ _), hsub, trivial⟩
       · exact ⟨hinv.mono (Nat.le_succ _), hsub, by simpa only [PcOk] using hpc⟩
-      · next w' ds hf =>
-        refine ⟨?_, hsub, by simpa only [PcOk] using hpc⟩
-        simp only []
-        rw [(fwdTo_sameQ hf).queueOf]
-        exact hinv.mono (Nat.le_succ _)
+      · exact ⟨hinv.mono (Nat.le_succ _), hsub, by simpa only [PcOk] using hpc⟩
+  | hdl fn j msg mfn txFreq k rx ks emit drop js =>
+    simp only [clockStep]
+    split
+    · exact ⟨hinv.mono (Nat.le_succ _), hsub, trivial⟩
+    · next w' ds hf =>
+      refine ⟨?_, hsub, by simpa only [PcOk] using hpc⟩
+      simp only []
+      rw [(handleDataMsg_sameQ hf).queueOf]
+      exact hinv.mono (Nat.le_succ _)
 
 /-! ### schedules -/
 
@@ -427,7 +430,8 @@ theorem clockStep_queue (s : State) (j0 : Nat) :
   | dead e => rfl
   | next fn js =>
     cases js with
-    | nil => rfl
+    | nil => simp only [clockStep]; repeat' split
+             all_goals rfl
     | cons j js => simp only [clockStep]; repeat' split
                    all_goals rfl
   | lock fn j js =>
@@ -454,10 +458,12 @@ theorem clockStep_queue (s : State) (j0 : Nat) :
     | nil => rfl
     | cons k ks =>
       simp only [clockStep]
-      split
-      · rfl
-      · rfl
-      · next hf => exact (fwdTo_sameQ hf).queueOf j0
+      split <;> rfl
+  | hdl fn j msg mfn txFreq k rx ks emit drop js =>
+    simp only [clockStep]
+    split
+    · rfl
+    · next hf => exact (handleDataMsg_sameQ hf).queueOf j0
 
 /-! ### pending lists -/
 
@@ -596,11 +602,14 @@ theorem clockRun_add (s : State) (a b : Nat) : clockRun s (a + b) = clockRun (cl
 theorem forwardMsg_go_cons (j mfn : Nat) (txFreq : Option Int) (msg : Trxd.TxMsg) (w : World)
     (acc : List Dgram) (k : Nat) (ks : List Nat) :
     forwardMsg.go j mfn txFreq msg w acc (k :: ks) =
-      match fwdTo w j msg mfn txFreq k with
+      match fwdRead w j msg mfn txFreq k with
       | .error e => .error e
       | .ok none => forwardMsg.go j mfn txFreq msg w acc ks
-      | .ok (some (w', ds)) => forwardMsg.go j mfn txFreq msg w' (acc ++ ds) ks := by
-  simp only [forwardMsg.go, fwdTo]
+      | .ok (some rx) =>
+        match handleDataMsg w k j msg rx with
+        | .error e => .error e
+        | .ok (w', ds) => forwardMsg.go j mfn txFreq msg w' (acc ++ ds) ks := by
+  simp only [forwardMsg.go, fwdRead]
   repeat' split
   all_goals first | rfl | (simp_all; done)
 
@@ -622,7 +631,7 @@ theorem fwd_run (fn j mfn : Nat) (txFreq : Option Int) (msg : Trxd.TxMsg) (emit 
   | cons k ks ih =>
     intro w acc w' r out st so h
     rw [forwardMsg_go_cons] at h
-    cases hf : fwdTo w j msg mfn txFreq k with
+    cases hf : fwdRead w j msg mfn txFreq k with
     | error e => rw [hf] at h; cases h
     | ok v =>
       rw [hf] at h
@@ -634,14 +643,19 @@ theorem fwd_run (fn j mfn : Nat) (txFreq : Option Int) (msg : Trxd.TxMsg) (emit 
         rw [Nat.add_comm, clockRun_add]
         simp only [clockRun, clockStep, hf]
         exact hn
-      | some v =>
-        obtain ⟨w2, ds⟩ := v
+      | some rx =>
         simp only [] at h
-        obtain ⟨D, n, hr, hn⟩ := ih w2 (acc ++ ds) w' r (out ++ ds) st so h
-        refine ⟨ds ++ D, n + 1, by rw [hr, List.append_assoc], ?_⟩
-        rw [Nat.add_comm, clockRun_add]
-        simp only [clockRun, clockStep, hf]
-        rw [hn, List.append_assoc]
+        cases hh : handleDataMsg w k j msg rx with
+        | error e => rw [hh] at h; cases h
+        | ok v =>
+          obtain ⟨w2, ds⟩ := v
+          rw [hh] at h
+          simp only [] at h
+          obtain ⟨D, n, hr, hn⟩ := ih w2 (acc ++ ds) w' r (out ++ ds) st so h
+          refine ⟨ds ++ D, n + 2, by rw [hr, List.append_assoc], ?_⟩
+          rw [Nat.add_comm, clockRun_add]
+          simp only [clockRun, clockStep, hf, hh]
+          rw [hn, List.append_assoc]
 
 /-- `forward_msg` for the emitted messages one after the other (`clckTick.go`) -/
 theorem emit_run (fn j : Nat) (drop : List Trxd.TxMsg) (js : List Nat) :
@@ -740,23 +754,23 @@ theorem clckTick_run {w w' : World} {j fn : Nat} {ds : List Dgram} {st' : Nat}
 
 /-- the `clck_handler` loop -/
 theorem tick_go_run (fn : Nat) (so : List Dgram) : ∀ (js : List Nat) (w : World) (acc : List Dgram) (st : Nat),
-    (tick.go fn w acc st js).exc = none →
+    w.clkSrc = some fn → (tick.go fn w acc st js).exc = none →
     ∃ n, clockRun ⟨w, .next fn js, acc, st, so⟩ n =
       ⟨(tick.go fn w acc st js).world, .idle, (tick.go fn w acc st js).out, (tick.go fn w acc st js).stale, so⟩ := by
   intro js
   induction js with
   | nil =>
-    intro w acc st _
-    exact ⟨1, by simp only [clockRun, clockStep, tick.go]⟩
+    intro w acc st hs _
+    exact ⟨1, by simp only [clockRun, clockStep, tick.go, hs]⟩
   | cons j js ih =>
-    intro w acc st hx
+    intro w acc st hs hx
     simp only [tick.go] at hx ⊢
     split at hx
     · cases hx
     next w2 ds s2 hc =>
     try simp only [hc]
     obtain ⟨n1, h1⟩ := clckTick_run hc js acc st so
-    obtain ⟨n2, h2⟩ := ih w2 (acc ++ ds) (st + s2) hx
+    obtain ⟨n2, h2⟩ := ih w2 (acc ++ ds) (st + s2) ((clckTick_ok hc).1.1.trans hs) hx
     exact ⟨n1 + n2, by rw [clockRun_add, h1, h2]⟩
 
 /-- Refinement: a tick of the clock thread that is not interleaved with socket operations and that no
@@ -776,7 +790,7 @@ theorem tick_run {w : World} (hx : (tick w).exc = none) (so : List Dgram) :
       simp [hr, hs] at hx
     | some fn =>
       rw [tick_eq_go hr hs] at hx ⊢
-      obtain ⟨n, hn⟩ := tick_go_run fn so (List.range w.trxs.length) w (tickInds w fn) 0 hx
+      obtain ⟨n, hn⟩ := tick_go_run fn so (List.range w.trxs.length) w (tickInds w fn) 0 hs hx
       refine ⟨1 + n, ?_⟩
       rw [clockRun_add]
       have h1 : clockRun ⟨w, .idle, [], 0, so⟩ 1 =
@@ -784,6 +798,100 @@ theorem tick_run {w : World} (hx : (tick w).exc = none) (so : List Dgram) :
         simp only [clockRun, clockStep, hr, hs, not_true_eq_false, if_false, List.nil_append]
         rfl
       rw [h1, hn]
+
+/-! ### the recipient loop of `forward_msg`: the reads (`fwd-read`) and the call (`fwd-handle`) -/
+
+/-- `TxMsg.trans(ver = v)`: the translated message carries the requested header version and the
+frame / timeslot number of the original -/
+theorem trans_hdr {m : Trxd.TxMsg} {v : Int} {rx : Trxd.RxMsg} (h : m.trans (some v) = .ok rx) :
+    rx.ver = v ∧ rx.fn = m.fn ∧ rx.tn = m.tn := by
+  unfold Trxd.TxMsg.trans at h
+  dsimp only at h
+  split at h
+  · split at h
+    · cases h
+    · injection h with h; rw [← h]; exact ⟨rfl, rfl, rfl⟩
+  · injection h with h; rw [← h]; exact ⟨rfl, rfl, rfl⟩
+
+/-- what the reads of one iteration of the recipient loop decide: recipient `k` is served iff it is
+another transceiver, it is running, its Rx frequency for the burst's frame is the sender's Tx
+frequency; the message is translated with the header version `k` has at that moment -/
+theorem fwdRead_some_iff (w : World) (j mfn k : Nat) (msg : Trxd.TxMsg) (txFreq : Option Int) (rx : Trxd.RxMsg) :
+    fwdRead w j msg mfn txFreq k = .ok (some rx) ↔
+      k ≠ j ∧ ∃ trx, w.trxs[k]? = some trx ∧ trx.running = true ∧ trx.getRxFreq mfn = .ok txFreq ∧
+        msg.trans (some trx.hdrVer) = .ok rx := by
+  unfold fwdRead
+  by_cases hkj : k = j
+  · simp [hkj]
+  rw [if_neg hkj]
+  cases htrx : w.trxs[k]? with
+  | none => simp
+  | some trx =>
+    simp only [Option.some.injEq, exists_eq_left', ne_eq, hkj, not_false_eq_true, true_and]
+    by_cases hrun : trx.running = true
+    · simp only [hrun, not_true_eq_false, if_false, true_and]
+      cases hrx : trx.getRxFreq mfn with
+      | error e => simp
+      | ok rxf =>
+        simp only [Except.ok.injEq]
+        by_cases hf : rxf = txFreq
+        · subst hf
+          simp only [not_true_eq_false, if_false, true_and]
+          cases htr : msg.trans (some trx.hdrVer) with
+          | error e => simp
+          | ok rx' => simp
+        · simp [hf]
+    · simp [hrun]
+
+
+theorem act_sock_keeps {s : State} {a : Act} (h : a ≠ Act.clk) :
+    (act s a).pc = s.pc ∧ (act s a).out = s.out ∧ (act s a).stale = s.stale := by
+  cases a with
+  | clk => exact absurd rfl h
+  | ctrl i sp d => exact ⟨rfl, rfl, rfl⟩
+  | data i d => exact ⟨rfl, rfl, rfl⟩
+
+/-- operations of the socket thread never touch the clock thread's control state, what it has sent
+and what it has reported -/
+theorem exec_sock_keeps : ∀ (xs : List Act) (s : State), (∀ a ∈ xs, a ≠ Act.clk) →
+    (exec s xs).pc = s.pc ∧ (exec s xs).out = s.out ∧ (exec s xs).stale = s.stale := by
+  intro xs
+  induction xs with
+  | nil => intro s _; exact ⟨rfl, rfl, rfl⟩
+  | cons a xs ih =>
+    intro s h
+    obtain ⟨h1, h2, h3⟩ := ih (act s a) (fun b hb => h b (List.mem_cons_of_mem _ hb))
+    obtain ⟨g1, g2, g3⟩ := act_sock_keeps (s := s) (h a List.mem_cons_self)
+    exact ⟨h1.trans g1, h2.trans g2, h3.trans g3⟩
+
+/-- the `fwd-read` action: the next control state is decided by `fwdRead`, nothing else changes -/
+theorem clockStep_fwd (s : State) {fn j mfn k : Nat} {msg : Trxd.TxMsg} {txFreq : Option Int} {ks : List Nat}
+    {emit drop : List Trxd.TxMsg} {js : List Nat}
+    (hpc : s.pc = Pc.fwd fn j msg mfn txFreq (k :: ks) emit drop js) :
+    clockStep s = { s with pc :=
+      (match fwdRead s.w j msg mfn txFreq k with
+       | .error e => Pc.dead e
+       | .ok none => Pc.fwd fn j msg mfn txFreq ks emit drop js
+       | .ok (some rx) => Pc.hdl fn j msg mfn txFreq k rx ks emit drop js) } := by
+  obtain ⟨w, pc, out, stale, sout⟩ := s
+  simp only at hpc
+  subst hpc
+  simp only [clockStep]
+  split <;> simp_all
+
+/-- the `fwd-handle` action: `handle_data_msg` of recipient `k` with the message translated earlier -/
+theorem clockStep_hdl (s : State) {fn j mfn k : Nat} {msg : Trxd.TxMsg} {txFreq : Option Int} {rx : Trxd.RxMsg}
+    {ks : List Nat} {emit drop : List Trxd.TxMsg} {js : List Nat}
+    (hpc : s.pc = Pc.hdl fn j msg mfn txFreq k rx ks emit drop js) :
+    clockStep s =
+      match handleDataMsg s.w k j msg rx with
+      | .error e => { s with pc := Pc.dead e }
+      | .ok (w, ds) => { s with w := w, out := s.out ++ ds, pc := Pc.fwd fn j msg mfn txFreq ks emit drop js } := by
+  obtain ⟨w, pc, out, stale, sout⟩ := s
+  simp only at hpc
+  subst hpc
+  simp only [clockStep]
+  split <;> simp_all
 
 /-! ### concrete schedules for the non-vacuity examples of Props/C03 -/
 
@@ -793,5 +901,7 @@ def demoState (c : Nat) : State := { w := demoWorld c }
 def demoArrivalActs : List Act := [.data 0 (demoBurst 100), .data 0 (demoBurst 90), .data 0 (demoBurst 110)]
 /-- `n` consecutive actions of the clock thread -/
 def clks (n : Nat) : List Act := List.replicate n Act.clk
+/-- the TRXC datagram `CMD RXTUNE 890000` (retunes a receiver away from the demo sender's 935 MHz) -/
+def demoRxtune : List Nat := PyStr.encodeUtf8 (PyStr.lit "CMD RXTUNE 890000\x00")
 
 end OsmoVerif.World.Sched
